@@ -80,6 +80,8 @@ fixed("D26", "C04", "5ffff49", "a session begun while the last committed transac
 fixed("T2", "C14", "2f03ae5", "SELECT COUNT(*) in one thread and INSERTs into the same table in others: the scan re-took a read latch it already held while a writer waited for it, and parking_lot queues new readers behind a waiting writer - the engine stopped for good (about every third run of a real-thread stress; invisible to the baton scheduler until it gave the locks that policy)", "O-deadlock", "findings/T2-count-scan-and-inserts-on-one-table-deadlock-on-a-page-latch.json")
 fixed("T3", "C14", "7e7b5c5", "a scan that started while another thread's INSERT split the root leaf failed with 'Btree iterator received an invalid position to iterate over' (the first leaf was looked up, released, and latched again by the iterator)", "O-res", "findings/T3-scan-started-while-the-root-leaf-splits-fails-invalid-iterator-position.json")
 fixed("S2", "C02", "3725cc4", "a page freed by a rebalance (or by VACUUM, DROP, an overflow chain) was written to the data file at once while the tree on disk still pointed at it: VACUUM, an INSERT whose rebalancing frees a page, crash before the next checkpoint - open failed with 'Buffer overflow ... Free space: 0'", "O-open", "findings/S2-page-freed-by-a-rebalance-is-written-through-then-crash-open-fails.json")
+fixed("P1", "C03", "1940715", "VACUUM of a table with more leaves than the cache has frames (24-32 frames, 100+ rows of 0.5 KiB) never returned: it read every row through one tree handle that keeps each page pinned", "O-live:hang", "findings/P1-vacuum-of-a-table-larger-than-the-cache-never-returns.json")
+fixed("P1b", "C07", "1940715", "CREATE UNIQUE INDEX on a table with more leaves than the cache has frames failed with 'Buffer pool got out of memory for new frames' (same pinning)", "O-res", "findings/P1b-create-index-on-a-table-larger-than-the-cache-fails-out-of-memory.json")
 
 # ---- open findings: plans and indexes (C06) ----
 fixed("J1", "C06", "0093459", "an equi-join lost matching rows when the left input held a NULL in the join column (merge join compared a NULL key as greater than every right key and ran the right input dry)", "O-plan", "findings/J1-equi-join-with-null-join-key-loses-matches.json")
